@@ -7,6 +7,9 @@
     then decrements by one on every CAh; the offset of the next partial read is the number
     of bytes collected so far; the loop ends when ≥ 16 bytes are there; `SelEntry` then
     demands exactly 16 bytes and a known record type (else DecodingError).
+    A completed answer may carry FEWER bytes than asked for (the loop advances by what it got);
+    with none at all the pinned loop sends the identical request again, for ever -
+    `Variant.emptyStop` is the repaired loop: RetryError on an empty completed answer.
     `max_req_len` is a Python int: as shipped nothing stops the decrement, after 1 come 0, −1, −2 …
     which `UnsignedInt.encode` puts on the wire modulo 256 (00, FF, FE …) - the model keeps it as
     an `Int` and sends `wireByte`.  `Variant.floor = some F` is the repaired loop: `if
@@ -39,7 +42,7 @@ structure Cfg where
   last : Nat            -- END_SEL_RECORD_ID
   deriving Repr, DecidableEq, Inhabited
 
-/-- The two places where the pinned and the repaired pyipmi/sel.py differ. -/
+/-- The three places where the pinned and the repaired pyipmi/sel.py differ. -/
 structure Variant where
   /-- get_sel_entry: `if self.max_req_len <= F: raise RetryError()` behind `self.max_req_len -= 1`
   (`none`: as shipped, the length is lowered without end) -/
@@ -47,10 +50,18 @@ structure Variant where
   /-- get_and_clear_sel_entry(record_id, retry=N) runs on a retry budget and ends in RetryError:
   `some N` (`none`: `while True`, no such parameter) -/
   budget : Option Nat
+  /-- get_sel_entry: `if len(rsp.record_data) == 0: raise RetryError()` behind the completion-code
+  check - a "completed" answer that carries no record byte ends the read (`false`: as shipped and
+  after 8f8257b, nothing is appended, the offset stays and the identical request is sent again) -/
+  emptyStop : Bool := false
   deriving Repr, DecidableEq, Inhabited
 
-def Variant.asShipped : Variant := ⟨none, none⟩
-def Variant.intended : Variant := ⟨some 0, some 5⟩
+/-- the pinned tree -/
+def Variant.asShipped : Variant := ⟨none, none, false⟩
+/-- after 8f8257b / 934f8f8: the CAh ladder has a floor, get-and-clear a budget; an empty completed
+answer is still asked for again without end -/
+def Variant.floored : Variant := ⟨some 0, some 5, false⟩
+def Variant.intended : Variant := ⟨some 0, some 5, true⟩
 
 def infoReq : Wire := ⟨0x40, []⟩
 def reserveReq : Wire := ⟨0x42, []⟩
@@ -148,6 +159,11 @@ def shrink (cfg : Cfg) (v : Variant) (maxReq : Int) : Option Int :=
     | some f => if maxReq - (cfg.step : Int) ≤ f then none else some (maxReq - (cfg.step : Int))
     | none => some (maxReq - (cfg.step : Int))
 
+/-- `if len(rsp.record_data) == 0: raise RetryError()` (where the source has it): a completed answer
+without a single record byte.  Appending it would leave the offset where it is - the next request
+would be the one just made. -/
+def emptyAnswer (v : Variant) (data : List Nat) : Bool := v.emptyStop && data.isEmpty
+
 /-- The `while True` loop of `get_sel_entry`. -/
 def entryLoop {σ} (cfg : Cfg) (v : Variant) (send : Send σ) :
     Nat → World σ → (res rid : Nat) → (maxReq : Int) → (acc : List Nat) → Res σ (List Nat × Nat)
@@ -163,6 +179,7 @@ def entryLoop {σ} (cfg : Cfg) (v : Variant) (send : Send σ) :
         | some m => entryLoop cfg v send fuel r.1 res rid m acc
         | none => ⟨r.1, .retryError⟩
       else if cc ≠ 0 then ⟨r.1, .ccError cc⟩
+      else if emptyAnswer v data then ⟨r.1, .retryError⟩
       else if (acc ++ data).length ≥ cfg.recLen then ⟨r.1, selEntry (acc ++ data) next⟩
       else entryLoop cfg v send fuel r.1 res rid maxReq (acc ++ data)
     | e => ⟨r.1, castErr e⟩
